@@ -91,17 +91,39 @@ func (s *State) clone() *State {
 type heapEnv struct {
 	c     *Ctx
 	sorts map[string]string
+	// epochMerge: an epoch created by joining paths with different epochs; a heap array first touched after
+	// the join is, path by path, the array of the incoming epoch (not an unrelated fresh array)
+	epochMerge map[string][]epochPart
 }
+
+type epochPart struct{ cond, epoch string }
 
 func (h *heapEnv) get(s *State, name, sort string) string {
 	if t, ok := s.heap[name]; ok {
 		return t
 	}
 	h.sorts[name] = sort
-	sym := name + "@" + s.epoch
-	h.c.Const(sym, sort)
+	sym := h.epochSym(name, sort, s.epoch)
 	s.heap[name] = sym
 	return sym
+}
+
+// epochSym is the symbol of heap array `name` as it was when epoch began.
+func (h *heapEnv) epochSym(name, sort, epoch string) string {
+	sym := name + "@" + epoch
+	if h.c.has(sym) {
+		return sym
+	}
+	parts, ok := h.epochMerge[epoch]
+	if !ok || len(parts) == 0 {
+		h.c.Const(sym, sort)
+		return sym
+	}
+	r := h.epochSym(name, sort, parts[len(parts)-1].epoch)
+	for i := len(parts) - 2; i >= 0; i-- {
+		r = Ite(parts[i].cond, h.epochSym(name, sort, parts[i].epoch), r)
+	}
+	return h.c.Define(sym, sort, r)
 }
 
 func (h *heapEnv) set(s *State, name, sort, term string) {
@@ -482,6 +504,14 @@ func (x *exec) merge(ins []incoming, label string) *State {
 		out.epoch = ins[0].st.epoch
 	} else {
 		out.epoch = x.c.Fresh("e")
+		if x.h.epochMerge == nil {
+			x.h.epochMerge = map[string][]epochPart{}
+		}
+		var parts []epochPart
+		for i, in := range ins {
+			parts = append(parts, epochPart{conds[i], in.st.epoch})
+		}
+		x.h.epochMerge[out.epoch] = parts
 	}
 	// cells
 	cellSet := map[*ssa.Alloc]bool{}
